@@ -1,0 +1,89 @@
+/**
+ * @file verif_hook.h
+ * @brief Verification hooks (compiled in only with -DYAKUSHIMA_VERIF).
+ * @details Every shared-memory access of the library reports to an optional
+ * hook object: a "pre" call before the access (a scheduling point for a
+ * deterministic scheduler) and, where the value matters to a protocol model, a
+ * "post" call carrying the value read / written and the outcome of a CAS.
+ * Without the define every macro expands to nothing.
+ */
+#pragma once
+
+#ifdef YAKUSHIMA_VERIF
+
+#include <cstdint>
+#include <cstring>
+
+namespace yakushima::verif {
+
+enum kind : int {
+    k_load = 0,
+    k_store = 1,
+    k_cas = 2,
+    k_spin = 3,    // the caller is waiting for another thread to change *addr
+    k_sleep = 4,
+    k_retire = 5,  // object handed to the garbage collector (val = tag epoch)
+    k_reclaim = 6, // object released by the garbage collector
+    k_rmw = 7,
+    k_note = 8,
+};
+
+// identifies which variable an access is about, for the protocol models
+enum obj : int {
+    o_other = 0,
+    o_version = 1,
+    o_perm = 2,
+    o_slot_key = 3,
+    o_lv = 4,
+    o_running = 5,
+    o_begin_epoch = 6,
+    o_epoch = 7,
+    o_gc_epoch = 8,
+    o_root_lock = 9,
+    o_nkeys = 10,
+    o_child = 11,
+    o_gc_queue = 12,
+    o_end_flag = 13,
+};
+
+struct hooks {
+    void (*pre)(int kind, int obj, const volatile void* addr);
+    void (*post)(int kind, int obj, const volatile void* addr, std::uint64_t val,
+                 int ok);
+    bool (*sleep)(std::uint64_t ms); // true: the sleep was taken over
+};
+
+inline hooks*& get() {
+    static hooks* h = nullptr;
+    return h;
+}
+
+template<class T>
+inline std::uint64_t as_u64(const T& v) {
+    std::uint64_t r = 0;
+    std::memcpy(&r, &v, sizeof(T) < 8 ? sizeof(T) : 8);
+    return r;
+}
+
+} // namespace yakushima::verif
+
+#define YAKUSHIMA_VERIF_PRE(k, o, a)                                           \
+    do {                                                                       \
+        if (auto* yh_ = ::yakushima::verif::get(); yh_ && yh_->pre) {          \
+            yh_->pre(::yakushima::verif::k, ::yakushima::verif::o, (a));       \
+        }                                                                      \
+    } while (0)
+#define YAKUSHIMA_VERIF_POST(k, o, a, v, ok)                                   \
+    do {                                                                       \
+        if (auto* yh_ = ::yakushima::verif::get(); yh_ && yh_->post) {         \
+            yh_->post(::yakushima::verif::k, ::yakushima::verif::o, (a),       \
+                      ::yakushima::verif::as_u64(v), (ok));                    \
+        }                                                                      \
+    } while (0)
+
+#else
+
+#define YAKUSHIMA_VERIF_PRE(k, o, a) ((void) 0)
+#define YAKUSHIMA_VERIF_POST(k, o, a, v, ok) ((void) 0)
+
+#endif
